@@ -19,7 +19,10 @@ GUARD = "PARMCB_VERIF"
 
 BASE_FLAGS = ["-std=c++14", "-O2", "-DNDEBUG", "-w", "-D" + GUARD]
 ASAN_FLAGS = ["-std=c++14", "-O1", "-g", "-fno-omit-frame-pointer", "-w", "-D" + GUARD, "-DNDEBUG", "-DVH_TOUCH_RESULTS",
-              "-fsanitize=address,undefined", "-fno-sanitize-recover=undefined"]
+              "-fsanitize=address,undefined", "-fno-sanitize-recover=undefined",
+              # container annotations + standard-library precondition checks: an access to vector storage beyond size() (e.g. top() of an
+              # empty heap) is a read outside live objects although it stays inside the allocation; both fire only on genuine UB
+              "-D_GLIBCXX_SANITIZE_VECTOR", "-D_GLIBCXX_ASSERTIONS"]
 # NB: exitcode is a flag shared by all sanitizer runtimes in a process (the last *_OPTIONS parsed wins), so it is set once.
 # Leaks are checked explicitly after every work unit (__lsan_do_recoverable_leak_check), not at process exit.
 SAN_ENV = {"ASAN_OPTIONS": "exitcode=67:detect_leaks=1:leak_check_at_exit=0:abort_on_error=0:allocator_may_return_null=1:detect_stack_use_after_return=1",
